@@ -178,6 +178,58 @@ theorem C05_refines_step (s : State) (sp : Spec) (hi : Inv s) (hr : Rel s sp) (c
     Rel (Api.exec ⟨s, []⟩ c.toCall).1.s (specExec sp c).1 ∧ Inv (Api.exec ⟨s, []⟩ c.toCall).1.s :=
   refines_step s sp hi hr c hpre
 
+/-- what the abstract state says is "present": the key has a value, a guard, or a pending acquisition -/
+def Spec.present (sp : Spec) (k : Nat) : Prop := sp.vals k ≠ none ∨ sp.held k ≠ none ∨ sp.waiting k ≠ []
+
+/-- the counting and listing calls agree with the abstract state: `keys_with_entries_or_locked` lists (without
+duplicates) exactly the keys that are present in the specification, and `num_entries_or_locked` is its length -/
+theorem C05_observations_refine (s : State) (sp : Spec) (hi : Inv s) (hr : Rel s sp) :
+    (keys s).2 = .list s.order ∧ (count s).2 = .nat s.order.length ∧ s.order.Nodup ∧
+    ∀ k, k ∈ s.order ↔ sp.present k := by
+  refine ⟨by simp [keys, hi.notWedged], by simp [count, hi.notWedged], hi.nodup, ?_⟩
+  intro k
+  rw [hi.keys k]
+  unfold Spec.present
+  constructor
+  · intro hk
+    cases hm : s.ent k with
+    | none => exact absurd hm hk
+    | some m =>
+      cases hv : m.value with
+      | some st => left; rw [← hr.vals k]; simp [absVal, valOf, hm, hv]
+      | none =>
+        right
+        have hne := hi.inv2 k m hm hv
+        cases hrf : m.refs with
+        | nil => exact absurd hrf hne
+        | cons a t =>
+          have hka : hkey (s.hs a) = some k := (hi.refs k m hm a).1 (by simp [hrf])
+          obtain ⟨ad, e1, e2⟩ := hkey_inv hka
+          rcases hr.seq a ad.st (by simp [e1]) with e | e
+          · left
+            have := (hr.held k a).2 ⟨hka, by simp [e1, e]⟩
+            rw [this]; simp
+          · right
+            rw [hr.wait k, waitingOf_eq s k m hm]
+            -- a queued handle is the assigned holder or in the queue
+            by_cases hho : m.holder = some a
+            · simp [waitersOf, hho, e1, e]
+            · have : a ∈ m.queue := (hi.queue k m hm a).2 ⟨hka, by simp [e1, e], hho⟩
+              intro hnil
+              have : a ∈ waitersOf s m := by simp [waitersOf, this]
+              rw [hnil] at this; cases this
+  · rintro (hv | hh | hw)
+    · intro e; rw [← hr.vals k] at hv; simp [absVal, valOf, e] at hv
+    · cases hx : sp.held k with
+      | none => exact absurd hx hh
+      | some g =>
+        obtain ⟨gk, _⟩ := (hr.held k g).1 hx
+        obtain ⟨gd, e1, e2⟩ := hkey_inv gk
+        have := hi.live g gd e1
+        intro e; rw [e2, e] at this; simp at this
+    · intro e
+      rw [hr.wait k] at hw; simp [waitingOf, e] at hw
+
 /-- non-vacuity of `C05_refines`: a history with contention, a queue, a cancellation and value changes -/
 example :
     let cs : List SCall := [.lockWait 1 7, .op 1 7 (.insert 5), .lockWait 2 7, .lockTry 3 7, .lockWait 4 7, .cancel 2 7,
